@@ -38,6 +38,9 @@ def anyNonSentinel : List FieldD → List Val → Bool
 /-- `Cls(**kwargs)`: dataclass `__init__` followed by `__post_init__` -/
 def construct (S : Schema) (c : Nat) (kw : List (Nat × Val)) : Val :=
   let fs := fieldsOf S c
+  -- the dataclass `__init__` assigns every argument through `Message.__setattr__`, which marks an
+  -- instance of a field-less class as present
+  let kw := kw.map fun (p : Nat × Val) => (p.1, markEmpty S p.2)
   let slots := initSlots fs kw 0 fs
   .msg c slots (anyNonSentinel fs slots) []
     (initCur fs slots 0 (List.replicate (groupsOf S c) Option.none))
